@@ -1,20 +1,37 @@
 """C15 configuration for ./check (see checks/propcfg.py for the keys)."""
 CFG = {
-    "modules": ["VaxisModel.Props.C15", "VaxisModel.Props.C15Gen", "VaxisModel.Witness.F43", "VaxisModel.Witness.F115a", "VaxisModel.Witness.F115b"],
+    "modules": ["VaxisModel.Props.C15", "VaxisModel.Props.C15Gen",
+                "VaxisModel.Witness.F43", "VaxisModel.Witness.F115a", "VaxisModel.Witness.F115b"],
     "extractors": ["C15"],
     "drivers": ["C15", "C15Run"],
     "stateful": True,
     "trivial_prefix": ("-;",),
-    "rule": "cases = random widget sets (1..12 widgets, any subset capturing), random surface trees (depth <= 4, fan-out <= 3, "
-            "overlapping children, z-order, children sticking out of the parent), 5..40 ops per case over the unexported focus/mouse "
-            "handlers, hitTest, handleCommand and render's child sort; handler answers scripted per call (nil, redraw, refresh, quit, "
-            "consume, debug, title, focus, nested batches). Non-trivial = a state op during which at least one handler was called; "
-            "distinct by the whole case prefix.",
+    "technique": "Lean 4 proofs over an executable model of vxfw.go with arbitrary widget oracle; model tied to the source by "
+                 "(a) Gen/VxfwCases.lean (switch arms of App.Run and App.handleCommand, regenerated every run, compared by theorem) and "
+                 "(b) two correspondence streams: unexported handlers through verif_hooks_c15.go, and the real App.Run on a fake console",
+    "rule": "C15: random widget sets (1..12 widgets, any subset capturing), random surface trees (depth <= 4, fan-out <= 3, overlapping "
+            "children, z-order, children sticking out of the parent, root surface sometimes owned by another widget), 5..40 ops per case over "
+            "focusHandler.handleEvent/updatePath/focusWidget, mouseHandler.handleEvent/update/mouseExit, hitTest, handleCommand and render's "
+            "child sort; handler answers scripted per call (nil, redraw, refresh, quit, consume, debug, title, focus, nested BatchCmd/[]Command). "
+            "C15Run: the real App.Run on a fake console, 5..25 posted events per case (key, custom, mouse, FocusIn, FocusOut, Resize, Redraw), "
+            "every frame observed. Non-trivial = an op during which at least one handler was called; distinct by the whole case prefix.",
     "trusted_base": ["handlers returning a Go error (aborts Run) are outside the model",
-                     "BatchCmd/[]Command traversal modelled as pre-order flattening; sort.Slice on <= 12 children modelled as stable insertion sort"],
-    "level_text": "vxfw routing: key_routing proved for every oracle (widget behaviour), state and fuel over the model of focusHandler.handleEvent; "
-                  "see level_note for the other clauses.",
-    "level_note": "Model tied to vxfw.go by correspondence through verif_hooks_c15.go (call logs, focus, path, flags, hit lists compared per op).",
-    "assumptions": ["widget handlers never return an error", "at most 12 children per surface (Go's sort.Slice is then a stable insertion sort)"],
-    "timeout": 600,
+                     "BatchCmd/[]Command traversal modelled as pre-order flattening (Cmd.flatten); nesting handleCommand -> focusWidget -> handler "
+                     "-> handleCommand bounded by fuel (stack depth)",
+                     "sort.Slice on <= 12 children modelled as Go's stable insertion sort (validated by the `render` ops)",
+                     "SetMouseShape/SetTitle/CopyToClipboard/SendNotification are one abstract command `other k` (validated with SetTitle)"],
+    "level_text": "vxfw routing, focus and hover. Proved for every widget behaviour (oracle), state and nesting depth: key_routing (capture root->focused, "
+                  "target, bubble parent->root over the stored path, stop at the first consumed offer; general and explicit form), path_correct "
+                  "(after a frame the path is the drawn chain of the focused widget, or [root] after the best-effort refocus), mouse_routing, "
+                  "hit_chain (+ exact characterisation for overlapping siblings), focus_change_once (pairs FocusOut(old)/FocusIn(new); needs: no "
+                  "FocusOut handler answers with a focus command — else false, Witness F115b), hover_alternates over whole Run-loop histories "
+                  "(needs: no terminal FocusIn events — else false, Witness F43; trees draw each widget once), closed on FocusOut / pointer leaving, "
+                  "commands_once. Routing over the *drawn* chain between a focus command and the next frame is false (Witness F115a).",
+    "level_note": "Proved: 29 theorems incl. three negative ones from decide-checked witnesses. Validated by correspondence only: that the model equals "
+                  "vxfw.go (0 mismatches expected on ~43k quick / ~555k thorough op lines, both streams), Go's sort.Slice stability for <= 12 children, "
+                  "uint16 coordinate arithmetic (proved equal to integer arithmetic for sizes < 65536, hit_list_is_under). Modelled not verified: handler "
+                  "errors, stack overflow on unbounded refocus recursion (fuel), timing of the 8 ms frame timer (frames are explicit steps).",
+    "assumptions": ["widget handlers never return an error", "at most 12 children per surface (Go's sort.Slice is then a stable insertion sort)",
+                    "surface sizes fit uint16 (they are uint16 in Go)"],
+    "timeout": 900,
 }
